@@ -20,7 +20,7 @@ pub fn vzstd_compression_level_range() -> (r: VRangeI32)
 { unimplemented!() }
 
 // u64 -> T TryInto with the size-too-large error mapping
-pub trait VFromU64: Sized {
+pub trait VFromU64: Sized { // keep-vis
     spec fn fits(x: u64) -> bool;
     spec fn conv(x: u64) -> Self;
 }
